@@ -39,6 +39,10 @@ func (cache *CachedConverter) Close() error {
 	return cache.cacheFile.Close()
 }
 
+func (cache *CachedConverter) ExecutablePath() string {
+	return cache.converter.ExecutablePath()
+}
+
 func (cache *CachedConverter) Name() string {
 	return cache.converter.Name()
 }
